@@ -94,3 +94,33 @@ Definition e_P03_roundtrip (v : uval) : uval :=
          | [] => false
          end).
 Definition e_frame_eqb (v : uval) : uval := vbool (frame_eqb (getframe (arg 0 v)) (getframe (arg 1 v))).
+
+(* ---- C02 ---- *)
+From PV Require Import Model.Schedule Model.Requests Spec.C02.
+
+Definition getreq (v : uval) : req :=
+  match getN (arg 0 v) with
+  | 0 => RPlain (getN (arg 1 v))
+  | 1 => RParams (getN (arg 1 v)) (getN (arg 2 v)) (getN (arg 3 v))
+  | 2 => RSetEcomax (getN (arg 1 v)) (getN (arg 2 v))
+  | 3 => RSetMixer (getN (arg 1 v)) (getN (arg 2 v)) (getN (arg 3 v))
+  | 4 => RSetThermostat (getN (arg 1 v)) (getopt getN (arg 2 v)) (getN (arg 3 v)) (getN (arg 4 v))
+  | 5 => REcomaxControl (getN (arg 1 v))
+  | 6 => RAlerts (getN (arg 1 v)) (getN (arg 2 v))
+  | _ => RSetSchedule (getN (arg 1 v)) (getN (arg 2 v)) (getN (arg 3 v))
+                      (map (fun d => map getbool (getL d)) (getL (arg 4 v)))
+  end.
+
+(* [req; rcpt; sender; etype; ever] -> option bytes *)
+Definition e_req_bytes (v : uval) : uval :=
+  vopt vbytes (req_bytes (getreq (arg 0 v)) (getN (arg 1 v)) (getN (arg 2 v)) (getN (arg 3 v)) (getN (arg 4 v))).
+Definition e_req_ok (v : uval) : uval := vbool (req_ok (getreq v)).
+Definition e_spec_payload (v : uval) : uval := vbytes (spec_payload (getreq v)).
+(* P02 for a request: [req; rcpt; sender; etype; ever; bytes written by the implementation] *)
+Definition e_P02_req (v : uval) : uval :=
+  let r := getreq (arg 0 v) in
+  vbool (P02_env (mkFrame (req_code r) (getN (arg 1 v)) (getN (arg 2 v)) (getN (arg 3 v)) (getN (arg 4 v)) (spec_payload r))
+                 (getbytes (arg 5 v))).
+(* P02 for a frame given by message: [frame; bytes] *)
+Definition e_P02_env (v : uval) : uval := vbool (P02_env (getframe (arg 0 v)) (getbytes (arg 1 v))).
+Definition e_tx_ok (v : uval) : uval := vbool (tx_ok (getframe v)).
